@@ -460,6 +460,8 @@ impl Check for C18 {
         vec![
             ProfileSpec { name: "announce-url", quick: 20_000, thorough: 1_250_000 },
             ProfileSpec { name: "geometry", quick: 2000, thorough: 50_000 },
+            // announces repeated after failures must still carry everything
+            ProfileSpec { name: "tracker-faults", quick: 3000, thorough: 100_000 },
         ]
     }
     fn rule(&self) -> &'static str {
